@@ -88,9 +88,27 @@ impl StateCheck for C06 {
         };
         out.evals += 1;
         let n = decls.iter().map(|d| d.vals.len()).max().unwrap_or(0);
-        let maxv = decls.iter().flat_map(|d| d.vals.iter()).fold(0.0f64, |a, b| a.max(b.abs()));
+        // the clauses compare auxiliary energy (shares = aux x output / total output): the tolerance follows the auxiliary values
+        let maxv = decls.iter().filter(|d| d.kind == Kind::Aux).flat_map(|d| d.vals.iter()).fold(0.0f64, |a, b| a.max(b.abs()));
         let t = 1e-4 + 4e-6 * maxv * decls.len() as f64;
         edit_history(text, &comps, t, out);
+        // every component line in turn as the one pushed after the rest was read, and a second normalization
+        {
+            let aux_rows = |c: &cteepbd::Components| -> BTreeMap<String, Vec<f64>> { crate::hist::table(c).into_iter().filter(|(k, _)| k.contains("|AUX|")).collect() };
+            let whole = aux_rows(&comps);
+            for v in crate::hist::variants(text, 8) {
+                out.evals += 1;
+                out.compared += 1;
+                match &v.comps {
+                    Ok(c) => {
+                        if let Some(d) = crate::hist::table_diff(&aux_rows(c), &whole, t) {
+                            out.viol("same_assignment_after_edit_and_renormalize", &["history"], v.desc.clone(), d, "the assignment of the whole file read at once");
+                        }
+                    }
+                    Err(e) => out.viol("same_assignment_after_edit_and_renormalize", &["history"], v.desc.clone(), format!("error: {e}"), "the assignment of the whole file read at once"),
+                }
+            }
+        }
         // declared auxiliaries per system
         let mut declared: BTreeMap<i32, Vec<f64>> = BTreeMap::new();
         for d in decls.iter().filter(|d| d.kind == Kind::Aux) {
@@ -283,9 +301,25 @@ pub fn aux_alphabet() -> Vec<Letter> {
     al
 }
 
+/// one two-service system whose declared outputs differ by orders of magnitude (0.01 kWh beside 30 000 kWh), also seasonally
+pub fn aux_magnitude_alphabet() -> Vec<Letter> {
+    let mut al = vec![Letter::one(a(Some(1), &k(&[4, 2]))), Letter::one(a(Some(1), &[3, 2500]))];
+    al.push(Letter::many(vec![u(Some(1), "ACS", "GASNATURAL", &k(&[3, 1])), u(Some(1), "CAL", "GASNATURAL", &k(&[1, 2]))]));
+    al.push(Letter::many(vec![u(Some(1), "CAL", "GASNATURAL", &k(&[3, 1])), u(Some(1), "REF", "ELECTRICIDAD", &k(&[1, 3]))]));
+    al.push(Letter::one(u(Some(1), "ACS", "GASNATURAL", &k(&[2, 2]))));
+    for srv in ["ACS", "CAL", "REF"] {
+        let sg: i64 = if srv == "REF" { -1 } else { 1 };
+        for v in [vec![1, 2], k(&[3, 1]), k(&[30000, 20000]), k(&[30000, 0]), vec![0, 1250]] {
+            al.push(Letter::one(o(1, srv, &v.iter().map(|x| x * sg).collect::<Vec<_>>())));
+        }
+    }
+    al
+}
+
 pub fn run(ctx: &Ctx) -> i32 {
     let shared = Shared::new("C06", ctx);
     let depth = if ctx.quick() { 6 } else { 8 };
+    explore(ctx, "AUX magnitudes: outputs of one system from 0.01 kWh to 30 000 kWh, depth<=5", Wide { alphabet: aux_magnitude_alphabet(), bases: alpha::bases(false), max_add: if ctx.quick() { 5 } else { 6 }, repeat: false }, C06, shared.clone());
     explore(ctx, &format!("AUX wide depth<={depth}"), Wide { alphabet: aux_alphabet(), bases: alpha::bases(false), max_add: depth, repeat: false }, C06, shared.clone());
     let seeded: Vec<Letter> = vec![
         Letter::one(a(Some(7), &vec![100; 12])),
